@@ -7,8 +7,8 @@ from gen_ep import EpSim, DEFAULT_EP
 from gen_hc import Net
 
 PROP = "C09"
-LAKE_TARGETS = ["Uflow.Props.C09", "Uflow.Props.C09Hc", "Uflow.Props.C09Gate", "Uflow.Props.C09Peer", "Uflow.Props.C09GateLater", "Uflow.Props.C09PeerSrv", "uflow_driver"]
-PROPS_FILES = ["C09", "C09Hc", "C09Gate", "C09Peer", "C09GateLater", "C09PeerSrv"]
+LAKE_TARGETS = ["Uflow.Props.C09", "Uflow.Props.C09Hc", "Uflow.Props.C09Gate", "Uflow.Props.C09Peer", "Uflow.Props.C09GateLater", "Uflow.Props.C09PeerSrv", "Uflow.Props.C09PeerSrvTrace", "uflow_driver"]
+PROPS_FILES = ["C09", "C09Hc", "C09Gate", "C09Peer", "C09GateLater", "C09PeerSrv", "C09PeerSrvTrace"]
 TRUSTED_BASE = c08.TRUSTED_BASE
 ASSUMPTIONS = ["default active_timeout (20 s) on both sides, so that the passive side's terminal event also falls inside the 22 s budget",
                "'eventually flushes' (the liveness part of disconnect()) is C02's subject; here: ordering and the retry budget"]
